@@ -98,6 +98,25 @@ def gen_cases(gen: int, rng: random.Random, tier: str):
             body = bytes(rng.randrange(256) for _ in range(nrl + rl * rc))
             hdr = bytes([s, rng.choice([0, 0, 0xFF, rng.randrange(256)])]) + struct.pack(">HHH", nrl, rl, rc)
             yield "unknown-C0-sub", ("unsupported", 1, s, body), sockrun.build_frame(5, 0xB0, 0x80, rng.randrange(256), 0xC0, hdr + body)
+    # (c2) status records longer than the known layout: several messages on the same connection,
+    #      each must be delivered equal to the message made of the records' known prefixes
+    if gen == 5:
+        for _ in range(40 if tier == "quick" else 400):
+            sub, base = rng.choice([(0x21, 8), (0x23, 8), (0x33, 9)])
+            stride = rng.choice([base + 1, base + 2, 12, 17, 32])
+            count = rng.choice([1, 2, 3, 8])
+            recs = []
+            for _k in range(count):
+                b = bytearray(rng.randrange(256) for _ in range(stride))
+                if sub == 0x21:
+                    b[0] = (rng.choice([0, 1, 3]) << 6) | (b[0] & 0x3F)
+                elif sub == 0x23:
+                    b[0] = (rng.choice([0, 1, 2, 3, 5]) << 4) | (b[0] & 0x0F)
+                    b[1] = (rng.choice([0, 1, 2, 3, 4, 8, 9]) << 4) | rng.choice([0, 1, 2, 3, 4, 5, 6, 9, 10, 11, 12, 13, 14])
+                recs.append(bytes(b))
+            long = struct.pack(">BBHHH", sub, 0, 0, stride, count) + b"".join(recs)
+            compact = struct.pack(">BBHHH", sub, 0, 0, base, count) + b"".join(r[:base] for r in recs)
+            yield "long-stride", ("prefix", compact), sockrun.build_frame(5, 0xB0, 0x80, rng.randrange(256), 0xC0, long)
     # (d) mutated streams
     lib = valid_frames(gen, rng, 60 if tier == "quick" else 300)
     pre = 2 if gen == 4 else 14
@@ -197,7 +216,18 @@ def check_c17(tier: str) -> int:
                                  dict(replay, kind="unhandled", trigger={"class": "unhandled-exception"}, count=unh))
                 # monitor for unknown ids
                 bad = None
-                if expect is not None:
+                if expect is not None and expect[0] == "prefix":
+                    want = c.impl_decode(0xC0, expect[1])
+                    if reset:
+                        bad = "the connection was reset"
+                    elif len(msgs) != 1:
+                        bad = f"{len(msgs)} deliveries"
+                    elif want[0] != "ok" or msgs[0] != want[1]:
+                        bad = f"delivered {repr(msgs[0])[:200]}, the known prefixes mean {repr(want[1])[:200]}"
+                    if bad:
+                        ck.violation("record with a longer stride not decoded from its known prefix",
+                                     dict(replay, kind="long-stride", trigger={"class": cls}, failure=bad))
+                elif expect is not None:
                     _, level, uid, payload = expect
                     if reset:
                         bad = "the connection was reset"
